@@ -13,7 +13,7 @@ func init() { register("C06", "other", checkC06) }
 
 func checkC06(w *World, r *Result) {
 	r.Explanation = "Decides structural necessary conditions on generator/dart: CONS both struct loops (class declaration and JSON routines) are json consumers; AGR-C06a the two loops have the same leading filter and derive the Dart field identifier the same way, so constructor parameters and fromJson arguments align; AGR-C02b union dispatch uses the members' local Go names on both the decoding and the encoding side; REC-SHAPE/EXH-b typeName and jsonID never follow a child buffer.generate skips and accept the same kinds; AGR-C06p every jsonFor* helper is only called from the code* function of the same node; FLW-C06b the file name returned by every buffer.generate(child) call inside a code* function flows into the imports that function returns, and the import emission skips exactly the file itself; AGR-C06c buffer.generate returns, on every path, the file computed for the node itself (Linker.GetOutput of its own type, the parent's only for anonymous maps and arrays), and Linker.GetOutput/OutputFiles read the same table; AGR-C10b/PTH-C10a/AGR-C10s the iota flag that licenses the positional conversion is decided on exactly the exported constants, after the integer, non-negative, gap and duplicate tests and the sort by value (rules shared with C10); AGR-C06i enum tables list exactly the exported constants and `implements` lists exactly the exported unions of Implements; AGR-C06e the index-based enum mapping is used exactly when IsIota; DECL-ID declaration IDs cover what their content reads; GEN-ID every name derived from a go/types Named also covers its type arguments, so two instantiations of one generic type are two classes; TPL-4 bracket balance of the constant templates. Does not decide: Dart syntax beyond balance, identity of member<->value conversion as a value-level fact."
-	r.Rules = []string{"CONS", "FLW-C09a", "AGR-C09b", "AGR-C06a", "AGR-C02b", "REC-SHAPE", "EXH-b", "AGR-C06p", "FLW-C06b", "AGR-C06c", "AGR-C06r", "AGR-C10b", "PTH-C10a", "AGR-C10s", "SORT-PAR", "AGR-C06i", "AGR-C11i", "AGR-C06e", "DECL-ID", "GEN-ID", "CONST-EXACT", "UTF8-SLICE", "TPL-4", "ALIAS-APPEND", "PRINTF", "CACHE-DROP", "MUT-AN", "AGR-C09c", "POS-ORDER"}
+	r.Rules = []string{"CONS", "FLW-C09a", "AGR-C09b", "AGR-C06a", "AGR-C02b", "REC-SHAPE", "EXH-b", "AGR-C06p", "FLW-C06b", "AGR-C06j", "AGR-C06c", "AGR-C06r", "AGR-C10b", "PTH-C10a", "AGR-C10s", "SORT-PAR", "AGR-C06i", "AGR-C11i", "AGR-C06e", "DECL-ID", "GEN-ID", "CONST-EXACT", "UTF8-SLICE", "TPL-4", "ALIAS-APPEND", "PRINTF", "CACHE-DROP", "MUT-AN", "AGR-C09c", "POS-ORDER"}
 	posOrderRule(w, r, func(rel string) bool { return rel == "analysis" || rel == "generator/dart" })
 	mutAnRule(w, r, func(rel string) bool { return rel == "generator/dart" })
 	// which embedded fields are flattened decides the keys this generator reads and writes (rule shared with C09)
@@ -38,6 +38,7 @@ func checkC06(w *World, r *Result) {
 	siblingAgreement(w, r, "EXH-b", []string{"generator/dart.(buffer).generate", "generator/dart.typeName", "generator/dart.jsonID"})
 	checkDartHelperPairs(w, r)
 	checkDartImports(w, r)
+	checkDartHelperFile(w, r)
 	checkDartFileAssignment(w, r)
 	checkLinkerRootTest(w, r)
 	subE := &Result{}
@@ -665,5 +666,99 @@ func checkLinkerRootTest(w *World, r *Result) {
 	})
 	if n == 0 {
 		Undecided("AGR-C06r: NewLinker has no prefix test")
+	}
+}
+
+
+// checkDartHelperFile (AGR-C06j): a generated function calls the JSON helpers named by jsonID(child). Where jsonID
+// *delegates* — for a named type that is not a list or a map it answers with the name of the underlying type's helpers
+// (`intFromJson` for `type ID int64`) — the helper lives in the file of the underlying type (predefined.dart), not in
+// the file of the named type, which is the only one buffer.generate reports to the user. Dart imports are not
+// transitive, so the user must import the underlying type's file itself. Obligation, one per function that records
+// imports for its children (codeForStruct, codeForArray, codeForMap): it also asks for the file of a named child's
+// underlying type (a call of generate on `.Underlying`, directly or in a package helper it calls).
+func checkDartHelperFile(w *World, r *Result) {
+	jid := w.MustFunc("generator/dart.jsonID")
+	jinfo := jid.Pkg.TypesInfo
+	delegates := false
+	var at token.Pos
+	ast.Inspect(jid.Decl.Body, func(x ast.Node) bool {
+		ret, ok := x.(*ast.ReturnStmt)
+		if !ok || len(ret.Results) != 1 {
+			return true
+		}
+		call, ok := ast.Unparen(ret.Results[0]).(*ast.CallExpr)
+		if !ok || calleeOf(jinfo, call) != jid.Obj || len(call.Args) != 1 {
+			return true
+		}
+		if sel, ok := ast.Unparen(call.Args[0]).(*ast.SelectorExpr); ok && sel.Sel.Name == "Underlying" {
+			delegates, at = true, ret.Pos()
+		}
+		return true
+	})
+	if !delegates {
+		r.ok("AGR-C06j", jid.Name, "jsonID names the helpers of the node itself", fnPos(w, jid), "no delegation to the underlying type: the helper lives in the file buffer.generate reports", true)
+		return
+	}
+	gen := w.MustFunc("generator/dart.(buffer).generate")
+	n := 0
+	for _, fi := range sortedFuncs(w) {
+		if w.Rel(fi.Obj.Pkg()) != "generator/dart" || fi.Decl.Body == nil || !strings.HasPrefix(fi.Obj.Name(), "codeFor") || fi.Obj.Name() == "codeForNamed" {
+			continue
+		}
+		info := fi.Pkg.TypesInfo
+		// does it record imports for children (calls generate on something that is not its own node's Underlying)?
+		callsGen := false
+		ast.Inspect(fi.Decl.Body, func(x ast.Node) bool {
+			call, ok := x.(*ast.CallExpr)
+			if !ok || calleeOf(info, call) != gen.Obj || len(call.Args) < 1 {
+				return true
+			}
+			// the members of a union are declared in the union's own package, hence emitted in the union's own file;
+			// a named member's typedef, declared in that same file, brings the import of its underlying type with it
+			if id := identOf(call.Args[0]); id != nil {
+				member := false
+				ast.Inspect(fi.Decl.Body, func(y ast.Node) bool {
+					if rs, ok := y.(*ast.RangeStmt); ok && identOf(rs.Value) != nil && info.Defs[identOf(rs.Value)] == objOf(info, id) {
+						if sel, ok := ast.Unparen(rs.X).(*ast.SelectorExpr); ok && sel.Sel.Name == "Members" {
+							member = true
+						}
+					}
+					return true
+				})
+				if member {
+					return true
+				}
+			}
+			callsGen = true
+			return true
+		})
+		if !callsGen {
+			continue
+		}
+		n++
+		asksUnderlying := false
+		for _, cf := range calleeClosure(w, fi, 1) {
+			if cf.Pkg != fi.Pkg || cf.Decl.Body == nil || cf == gen || cf.Obj.Name() == "codeForNamed" {
+				continue
+			}
+			ci := cf.Pkg.TypesInfo
+			ast.Inspect(cf.Decl.Body, func(x ast.Node) bool {
+				call, ok := x.(*ast.CallExpr)
+				if !ok || calleeOf(ci, call) != gen.Obj || len(call.Args) < 1 {
+					return true
+				}
+				if sel, ok := ast.Unparen(call.Args[0]).(*ast.SelectorExpr); ok && sel.Sel.Name == "Underlying" {
+					asksUnderlying = true
+				}
+				return true
+			})
+		}
+		r.cond(asksUnderlying, "AGR-C06j", fi.Name, "users of jsonID(child) import the file of the helper it names", fnPos(w, fi),
+			"for a named child the file of its underlying type is requested too",
+			"jsonID answers, for a named type that is not a list or a map, with the helpers of its underlying type ("+w.Pos(at)+"), but this function imports only the file buffer.generate returns for the child itself: for `type ID int64` declared in another package the generated file calls intFromJson / intToJson (predefined.dart) while importing only the package's file — Dart imports are not transitive, the file does not compile unless something else in it happens to import predefined.dart")
+	}
+	if n == 0 {
+		Undecided("AGR-C06j: no code* function of generator/dart records imports for its children")
 	}
 }
